@@ -9,36 +9,44 @@ import subprocess
 import sys
 from pathlib import Path
 
+import os
+
 ROOT = Path(__file__).resolve().parent.parent
+# MATRIX_WT=<scratch git worktree of /repo HEAD>: patch that copy instead of /repo itself (same checks through
+# VERIF_ROPT_SRC), so that /repo stays free while the matrix runs; the default patches /repo.
+TREE = os.environ.get("MATRIX_WT", "/repo")
+if TREE != "/repo":
+    os.environ["VERIF_ROPT_SRC"] = TREE + "/src"
 # seeded changes whose clause is decided by the check of a neighbouring property (tried when the own check stays quiet)
 ALSO = {"C14-D": ["C15"], "C07-D": ["C02"], "C01-E": ["C05"], "C07-F": ["C03"]}
 
 
 def sh(*cmd: str, timeout: int = 1800) -> subprocess.CompletedProcess:
+    sys.stdout.flush()
     return subprocess.run(cmd, capture_output=True, text=True, timeout=timeout, check=False)
 
 
 def main() -> int:
-    if sh("git", "-C", "/repo", "status", "--porcelain").stdout.strip():
-        print("REFUSING: /repo has uncommitted changes")
+    if sh("git", "-C", TREE, "status", "--porcelain").stdout.strip():
+        print(f"REFUSING: {TREE} has uncommitted changes")
         return 2
     if sys.argv[1:2] == ["--mutants"]:
         return mutants()
     names = sys.argv[1:] or sorted(p.name for p in (ROOT / "seeded").iterdir() if (p / "patch.diff").exists())
     path = ROOT / "seeded" / "detection.json"
     table = json.loads(path.read_text()) if path.exists() else {}
-    head = sh("git", "-C", "/repo", "rev-parse", "--short", "HEAD").stdout.strip()
+    head = sh("git", "-C", TREE, "rev-parse", "--short", "HEAD").stdout.strip()
     for name in names:
         sdir = ROOT / "seeded" / name
         patch = sdir / "patch.diff"
         prop = name.split("-")[0]
         entry = {"property": prop, "repo_head": head}
-        if sh("git", "-C", "/repo", "apply", "--check", str(patch)).returncode != 0:
+        if sh("git", "-C", TREE, "apply", "--check", str(patch)).returncode != 0:
             entry["status"] = "patch does not apply to /repo HEAD"
             table[name] = entry
             print(name, entry["status"])
             continue
-        sh("git", "-C", "/repo", "apply", str(patch))
+        sh("git", "-C", TREE, "apply", str(patch))
         try:
             for check_prop in [prop, *ALSO.get(name, [])]:
                 res = sh(str(ROOT / "check"), check_prop, "--tier", "quick")
@@ -50,12 +58,12 @@ def main() -> int:
                 if res.returncode == 1:
                     break
         finally:
-            sh("git", "-C", "/repo", "checkout", "--", ".")
+            sh("git", "-C", TREE, "checkout", "--", ".")
             for f in (ROOT / "replays").glob("*/new-*.json"):
                 f.unlink()
             sh("git", "-C", str(ROOT), "checkout", "--", "evidence")  # evidence must describe the unchanged tree
         table[name] = entry
-        print(name, entry["status"], entry.get("signatures"))
+        print(name, entry["status"], entry.get("signatures"), flush=True)
         meta_path = sdir / "meta.json"
         meta = json.loads(meta_path.read_text()) if meta_path.exists() else {}
         meta["detection"] = entry
@@ -77,11 +85,11 @@ def mutants() -> int:
     for patch in sorted((ROOT / "mutants").glob("*/*.patch")):
         prop = patch.parent.name
         name = f"{prop}/{patch.name}"
-        if sh("git", "-C", "/repo", "apply", "--check", str(patch)).returncode != 0:
+        if sh("git", "-C", TREE, "apply", "--check", str(patch)).returncode != 0:
             table[name] = {"status": "patch does not apply to /repo HEAD"}
             print(name, table[name]["status"])
             continue
-        sh("git", "-C", "/repo", "apply", str(patch))
+        sh("git", "-C", TREE, "apply", str(patch))
         try:
             res = sh(str(ROOT / "check"), prop, "--tier", "quick")
             out = res.stdout + res.stderr
@@ -89,11 +97,11 @@ def mutants() -> int:
             table[name] = {"status": "detected" if res.returncode == 1 else ("MISSED" if res.returncode == 0 else "harness-error"),
                            "exit": res.returncode, "signatures": sigs}
         finally:
-            sh("git", "-C", "/repo", "checkout", "--", ".")
+            sh("git", "-C", TREE, "checkout", "--", ".")
             for f in (ROOT / "replays").glob("*/new-*.json"):
                 f.unlink()
             sh("git", "-C", str(ROOT), "checkout", "--", "evidence")
-        print(name, table[name]["status"], table[name].get("signatures"))
+        print(name, table[name]["status"], table[name].get("signatures"), flush=True)
     (ROOT / "mutants" / "detection.json").write_text(json.dumps(table, indent=1, sort_keys=True) + "\n")
     print("not detected:", [n for n, e in table.items() if e["status"] != "detected"])
     return 0
